@@ -70,6 +70,11 @@ pub fn drivers(spec: SpecId) -> Vec<Driver> {
         c.name = "coinbase-is-contract".into();
         v.push(Driver { case: c, stale_keys: vec![] });
     }
+    // the retry reads a key the stale first incarnation does not, and drops a write location
+    {
+        let (c, _) = blocks::retry_reads_more(spec);
+        v.push(Driver { case: c, stale_keys: vec![] });
+    }
     // block-hash reads
     let mut db = MemDb::default();
     blocks::rich(&mut db, 2);
